@@ -217,3 +217,185 @@ def _entry_calls(repo):
     lean = ("def fuelEntryCalls : List (String × List String) := [\n  "
             + ",\n  ".join(f"({lean_str(n)}, [" + ", ".join(lean_str(c) for c in cs) + "])" for n, cs in rows) + "]")
     return rows, lean
+
+
+# ------------------------------------------------------------------------------------------------
+# who consumes an `Error` that may come out of a nested evaluation, and what happens to it
+_CONS_PAT = re.compile(r"\.map_err\(|\.ok\(\)|\.unwrap_or(?:_else|_default)?\(|\bif let Err\(|\bErr\(_\)|\.is_err\(\)"
+                       r"|\bErr\((?:mut )?\w+\)\s*(?:if[^=]*?)?=>|\.or_else\(")
+_ADAPT = {"map", "and_then", "ok_or_else", "ok_or", "as_ref", "as_mut", "cloned", "into_iter", "iter", "transpose", "flatten",
+          "filter", "filter_map", "copied", "map_or", "then", "borrow_mut", "borrow", "lock", "unwrap", "clone", "into_inner"}
+# a call that receives the State (or is a method of it) can run the VM; so can the functions that start an evaluation
+_STATE_ARG = re.compile(r"(?:^|[(,])\s*(?:&mut\s+)?\*?(?:state|self)\s*(?:$|[,)])")
+_EVAL_CALLEES = {"_capture_state", "_capture_state_with_output", "_eval", "_render", "render", "render_captured", "render_captured_to",
+                 "eval", "render_str", "render_named_str", "call_block", "eval_state", "do_eval", "eval_impl", "eval_macro", "render_block",
+                 "render_block_to_write", "call_macro", "apply_filter", "perform_test", "format", "call", "call_method", "_call_method",
+                 "callback", "with_execution_state", "perform_include", "perform_super", "invoke", "invoke_nested_mut"}
+
+
+def _match_back(src, i):
+    depth = 0
+    while i >= 0:
+        c = src[i]
+        if c in ")]}":
+            depth += 1
+        elif c in "([{":
+            depth -= 1
+            if depth == 0:
+                return i
+        i -= 1
+    return -1
+
+
+def _match_fwd(src, i):
+    depth = 0
+    while i < len(src):
+        c = src[i]
+        if c in "([{":
+            depth += 1
+        elif c in ")]}":
+            depth -= 1
+            if depth == 0:
+                return i
+        i += 1
+    return len(src) - 1
+
+
+def _chain(src, p):
+    """the method chain whose value ends right before p: [(name, args)], outermost first"""
+    out, i = [], p - 1
+    while True:
+        while i >= 0 and src[i].isspace():
+            i -= 1
+        if i < 0:
+            break
+        if src[i] == "?":
+            i -= 1
+            continue
+        if src[i] == ")":
+            j = _match_back(src, i)
+            k = j - 1
+            while k >= 0 and src[k].isspace():
+                k -= 1
+            m = re.search(r"([A-Za-z_]\w*!?)(?:::<[^()]*>)?$", src[:k + 1])
+            name = m.group(1) if m else "?"
+            if name in ("ok!", "some!", "Ok", "Some"):
+                i -= 1  # look inside the wrapper
+                continue
+            out.append((name, src[j + 1:i]))
+            k2 = k - (len(m.group(0)) if m else 0)
+            while k2 >= 0 and src[k2].isspace():
+                k2 -= 1
+            if k2 >= 0 and src[k2] == ".":
+                i = k2 - 1
+                continue
+            break
+        m = re.search(r"([A-Za-z_]\w*)$", src[:i + 1])
+        if m:
+            out.append(("var:" + m.group(1), ""))
+            k2 = i - len(m.group(1))
+            while k2 >= 0 and src[k2].isspace():
+                k2 -= 1
+            if k2 >= 0 and src[k2] == ".":
+                i = k2 - 1
+                continue
+        break
+    return out
+
+
+def _origin(src, fn_start, ch, use_pos, depth=0):
+    """(callee, origin) — origin: 'may-run-vm' if the consumed value comes from a call that gets the
+    State or starts an evaluation, 'no-vm' if it provably does not, 'unknown' otherwise"""
+    names = [n for n, _ in ch]
+    callee = next((n for n in names if n not in _ADAPT), names[0] if names else "?")
+    if any(_STATE_ARG.search(a) for _, a in ch) or any(n in _EVAL_CALLEES for n in names):
+        return callee, "may-run-vm"
+    if callee.startswith("var:") and callee not in ("var:self",) and depth < 3:
+        var = callee[4:]
+        # local binding `let [mut] var[: T] = EXPR;` in the same function, nearest before the use
+        ms = list(re.finditer(r"\blet\s+(?:mut\s+)?%s\b\s*(?::[^=;]+)?=" % re.escape(var), src[fn_start:use_pos]))
+        if ms:
+            s0 = fn_start + ms[-1].end()
+            e0 = src.find(";", s0)
+            expr = src[s0:e0]
+            if _STATE_ARG.search(expr) or re.search(r"\b(?:%s)\(" % "|".join(sorted(_EVAL_CALLEES)), expr):
+                return callee, "may-run-vm"
+            return callee, "no-vm"
+        # parameter or field with an Option/number type
+        if re.search(r"\b%s\s*:\s*(?:&\s*)?(?:mut\s+)?Option<" % re.escape(var), src):
+            return callee, "no-vm"
+        return callee, "unknown"
+    if callee.startswith("var:"):
+        return callee, "unknown"
+    return callee, "no-vm"
+
+
+@item("C13_ERR_CONSUMERS")
+def _err_consumers(repo):
+    base = os.path.join(repo, "minijinja/src")
+    files = sorted(os.path.relpath(p, base) for p in glob.glob(os.path.join(base, "**/*.rs"), recursive=True))
+    rows, n_novm = [], 0
+    for f in files:
+        if f.startswith(("compiler/", "vendor/")) or f in ("verif_hooks.rs", "macros.rs", "syntax.rs"):
+            continue
+        src = _strip_comments(open(os.path.join(base, f), encoding="utf-8").read())
+        cut = src.find("#[cfg(test)]")
+        for m in _CONS_PAT.finditer(src):
+            if 0 <= cut < m.start() and "mod test" in src[cut:cut + 200]:
+                continue
+            fns = list(re.finditer(r"\bfn\s+(\w+)", src[:m.start()]))
+            fn_name, fn_start = (fns[-1].group(1), fns[-1].start()) if fns else ("<top>", 0)
+            pat = m.group(0)
+            if pat.startswith("if let Err("):
+                e = src.find("{", m.end())
+                ch = _chain(src, e)
+                body = src[e:_match_fwd(src, e) + 1]
+                how = "if let Err"
+            elif pat.startswith("Err("):
+                ms = list(re.finditer(r"\bmatch\s", src[:m.start()]))
+                ch = []
+                if ms:
+                    e = src.find("{", ms[-1].end())
+                    ch = _chain(src, e)
+                depth, i = 0, m.end()
+                while i < len(src):
+                    c = src[i]
+                    if c in "([{":
+                        depth += 1
+                    elif c in ")]}":
+                        if depth == 0:
+                            break
+                        depth -= 1
+                    elif c == "," and depth == 0:
+                        break
+                    i += 1
+                body = src[m.end():i]
+                how = "match arm " + ("Err(_)" if pat.startswith("Err(_") else "Err(e)")
+            else:
+                ch = _chain(src, m.start())
+                e = _match_fwd(src, m.end() - 1) if pat.endswith("(") else m.end()
+                body = src[m.end():e]
+                how = pat.strip(".(")
+            callee, origin = _origin(src, fn_start, ch, m.start())
+            if origin == "no-vm":
+                n_novm += 1
+                continue
+            body = " ".join(body.split())
+            if "with_source(" in body:
+                disp = "wraps, original kept as source"
+            elif "take_err(" in body:
+                disp = "io error of the writer takes precedence, else original"
+            elif re.search(r"return Err\(\w+\)|bail!\(\w+\)|^\s*Err\(\w+\)\s*$|=> Err\(\w+\)|Err\(\w+\)\s*\}\s*$", body) and "Error::new" not in body:
+                disp = "propagates original"
+            elif "Error::new(" in body or "Error::from(" in body:
+                disp = "REPLACES original"
+            elif how in ("ok()", "unwrap_or", "unwrap_or_else", "unwrap_or_default", "is_err()", "match arm Err(_)", "or_else"):
+                disp = "SWALLOWS original"
+            else:
+                disp = "other"
+            rows.append((f, fn_name, callee, origin, how, disp))
+    rows.sort()
+    lean = ("def fuelErrConsumers : List (String × String × String × String × String × String) := [\n  "
+            + ",\n  ".join("(" + ", ".join(lean_str(x) for x in row) + ")" for row in rows) + "]\n"
+            + f"def fuelErrConsumersNoVm : Nat := {n_novm}")
+    return {"rows": rows, "no_vm": n_novm}, lean
